@@ -778,6 +778,8 @@ type statusRec struct {
 	side string
 	r    *Recorder
 	slow time.Duration // a status consumer that takes this long for every progress report (a slow user interface)
+	// slowDone: ... and for the final reports too (the next message's reports then arrive while an earlier one is being handled)
+	slowDone bool
 }
 
 func (s statusRec) UpdateStatus(st fbb.Status) {
@@ -794,7 +796,7 @@ func (s statusRec) UpdateStatus(st fbb.Status) {
 	}
 	s.r.Add(rec.Event{"op": "Status", "side": s.side, "dir": dir, "mid": mid, "transferred": st.BytesTransferred, "total": st.BytesTotal,
 		"done": st.Done, "pcsize": csize})
-	if s.slow > 0 && !st.Done {
+	if s.slow > 0 && (!st.Done || s.slowDone) {
 		time.Sleep(s.slow)
 	}
 }
@@ -943,7 +945,11 @@ func MainC17(args []string) int {
 				if i%8 == 5 || i%8 == 2 {
 					slow = 400 * time.Millisecond // longer than the 250 ms reporting period
 				}
-				upd := map[string]fbb.StatusUpdater{"A": statusRec{"A", r, slow}, "B": statusRec{"B", r, slow}}
+				slowDone := false
+				if i%8 == 0 || i%8 == 4 { // several small messages, no pacing: the transfers follow each other at once
+					slow, slowDone = 300*time.Millisecond, true
+				}
+				upd := map[string]fbb.StatusUpdater{"A": statusRec{"A", r, slow, slowDone}, "B": statusRec{"B", r, slow, slowDone}}
 				t0 := time.Now()
 				res := RunSessionOpts(c.sc, st, r, func(l *Link) { l.WriteDelay = c.delay }, upd, c.rate)
 				timedOut[i] = res.TimedOut
@@ -1021,7 +1027,7 @@ func MainC17(args []string) int {
 	// resumed transfers: an independent peer accepts the library's proposal with a non-zero offset ("FS !100", "FS A64");
 	// the library then sends the rest, and its reports still lie between zero and the total compressed size
 	var peerTraces [][]rec.Event
-	for pi, tok := range []string{"!100", "A64", "!1", "!0"} {
+	for pi, tok := range []string{"!100", "A64", "!1", "!0", "!END", "AEND"} {
 		ms := MsgSpec{MID: fmt.Sprintf("RESUME%06d", pi), Prec: 3, Size: "medium", Policy: "+"}
 		ps := &PeerScenario{ID: pi + 1, Lib: []MsgSpec{ms}, LibPol: map[string]string{}, Seed: rng.Int63(), Seg: "all", Sched: "free", Locator: "JO29PJ",
 			Status: true, WriteDelayMs: []int{0, 25}[pi%2],
